@@ -120,6 +120,17 @@ def natural_run(tdgl, p, base_tmp=None):
     DH = runner_mod.DataHandler
     orig_enter, orig_exit, orig_save = DH.__enter__, DH.__exit__, DH.save_time_step
     orig_update = TDGLSolver.update
+    # independent observation of the step the order parameter is really advanced with: every evaluation of the
+    # implicit update (static method) with its dt and whether it was answered; the LAST answered evaluation inside
+    # one update() call is the step taken (a refused evaluation is retried with a smaller dt; with screening every
+    # iteration evaluates again).  What update() REPORTS as its step must be that value.
+    orig_sfps = TDGLSolver.__dict__["solve_for_psi_squared"]
+    evals = []
+
+    def w_sfps(*args, **kw2):
+        r = orig_sfps.__func__(*args, **kw2)
+        evals.append((float(kw2["dt"]) if "dt" in kw2 else None, r is not None))
+        return r
     probe_idx = dev.probe_point_indices
 
     def t_index(t, stage):
@@ -177,12 +188,17 @@ def natural_run(tdgl, p, base_tmp=None):
             if fault["at"] == "pre":
                 events.append({"ev": "update", "i": i, "outcome": fault["kind"], "at": "pre"})
                 raise (KeyboardInterrupt() if fault["kind"] == "KI" else RuntimeError("injected fault"))
+        del evals[:]
         try:
             res = orig_update(self, state, running_state, dt_in, **kw)
         except BaseException as e:
             events.append({"ev": "update", "i": i, "outcome": "Exc:" + type(e).__name__, "at": "pre"})
             raise
         used = float(res[0])
+        answered = [d for d, ok in evals if ok and d is not None]
+        st["retries"] = st.get("retries", 0) + sum(1 for d, ok in evals if not ok)
+        st["evals"] = st.get("evals", 0) + len(evals)
+        step_taken_ok = (not evals) or (bool(answered) and answered[-1] == used)
         rec = {"dt": np.array([used])}
         if probe_idx is not None:
             rec["mu"] = np.asarray(res.mu)[probe_idx]
@@ -208,7 +224,7 @@ def natural_run(tdgl, p, base_tmp=None):
         st["applied"] += 1
         d = dict(zip(DATASETS, res[1:6]))
         hashes.setdefault(state_hash(d), st["applied"])
-        events.append({"ev": "update", "i": i, "outcome": "ok", "at": "", "dt": 1 if used > 0 and ok_rec else BOT,
+        events.append({"ev": "update", "i": i, "outcome": "ok", "at": "", "dt": 1 if used > 0 and ok_rec and step_taken_ok else BOT,
                        "uid": n, "content": st["applied"], "used": used})
         return res
 
@@ -289,6 +305,7 @@ def natural_run(tdgl, p, base_tmp=None):
         tempfile.tempdir = str(tempd)
         DH.__enter__, DH.__exit__, DH.save_time_step = w_enter, w_exit, w_save
         TDGLSolver.update = w_update
+        TDGLSolver.solve_for_psi_squared = staticmethod(w_sfps)
         try:
             solver = TDGLSolver(dev, opts, applied_vector_potential=field, terminal_currents=currents)
             if p.get("second_solve"):
@@ -311,6 +328,7 @@ def natural_run(tdgl, p, base_tmp=None):
         finally:
             DH.__enter__, DH.__exit__, DH.save_time_step = orig_enter, orig_exit, orig_save
             TDGLSolver.update = orig_update
+            TDGLSolver.solve_for_psi_squared = orig_sfps
         if sol is not None:
             try:
                 ltimes = [t_index(float(x), "sim") for x in np.atleast_1d(sol.times)]
@@ -369,4 +387,5 @@ def natural_run(tdgl, p, base_tmp=None):
            "out": out_mode, "foreign": foreign, "bad": "none"}
     return {"cfg": cfg, "ev": events, "natural": True,
             "info": {"updates_sim": st["sim_n"], "updates_thermal": st["th_n"], "exc": exc_name,
+                     "refused_evaluations": st.get("retries", 0), "evaluations": st.get("evals", 0),
                      "dts": [float(b - a) for a, b in zip(cum["sim"], cum["sim"][1:])][:12]}}
